@@ -814,6 +814,41 @@ def m_len(eng, args, kwargs, st, node):
     raise Undecided('len of %r' % (v,), node)
 
 
+def C_ISINSTANCE():
+    from . import contracts as _C
+    return _C.ISINSTANCE
+
+
+@func(all)
+def m_all(eng, args, kwargs, st, node):
+    items = eng.concrete_items(args[0], st)
+    if items is None:
+        raise Undecided('all() of a symbolic iterable outside a comprehension', node)
+    return [(VBool(And(*[eng.truthy(i, st) for i in items])), st)]
+
+
+@func(any)
+def m_any(eng, args, kwargs, st, node):
+    items = eng.concrete_items(args[0], st)
+    if items is None:
+        raise Undecided('any() of a symbolic iterable outside a comprehension', node)
+    return [(VBool(Or(*[eng.truthy(i, st) for i in items])), st)]
+
+
+@func(_osp.splitext if False else __import__('os').path.splitext)
+def m_splitext(eng, args, kwargs, st, node):
+    p = args[0]
+    eng.trusted_used.add('abstract paths: os.path.splitext as two uninterpreted functions')
+    return [(VTuple([VStr(eng.model_app('path_root', [p.t], STR)), VStr(eng.model_app('path_ext', [p.t], STR))]), st)]
+
+
+@method('EventDict.__setitem__')
+def eventdict_set(eng, args, kwargs, st, node):
+    """A dict that is only written by the function under verification: every store is a ghost event."""
+    eng.log_event(st, 'store', {'key': args[1], 'value': args[2]}, 'normal')
+    return [(NONE, st)]
+
+
 @func(isinstance)
 def m_isinstance(eng, args, kwargs, st, node):
     v, k = args
@@ -835,6 +870,17 @@ def m_isinstance(eng, args, kwargs, st, node):
             return [(VBool(BoolV(any(issubclass(list, c) for c in classes))), st)]
         if isinstance(o, HDict):
             return [(VBool(BoolV(any(issubclass(dict, c) for c in classes))), st)]
+        if isinstance(o, HInst) and o.cls in C_ISINSTANCE():
+            # tagged record standing for objects of several classes
+            tags = C_ISINSTANCE()[o.cls]
+            ts = []
+            for c in classes:
+                f = tags.get(c.__name__)
+                if f is None:
+                    ts.append(FALSE)
+                else:
+                    ts.append(o.fields[f].t)
+            return [(VBool(Or(*ts)), st)]
         if isinstance(o, HInst):
             real = eng.real_class(o.cls)
             if real is not None:
@@ -1232,3 +1278,17 @@ for _n in ('exists', 'isfile', 'isdir'):
     FUNCS[getattr(_osp, _n)] = _fs_pred(_n)
 for _n in ('join', 'dirname', 'basename', 'abspath', 'expanduser', 'realpath', 'split'):
     FUNCS[getattr(_osp, _n)] = _path_fn(_n, 1)
+
+
+import os as _os_mod
+
+
+@func(_os_mod.walk)
+def m_os_walk(eng, args, kwargs, st, node):
+    """os.walk(top): some finite sequence of (dirpath, dirnames, filenames) entries, top-down; the caller may prune the
+    walk by emptying dirnames in place (what the walk does with that is stdlib behaviour, assumed)."""
+    from .executor import VRecList
+    eng.trusted_used.add('stdlib:os.walk (top-down; honours in-place pruning of dirnames)')
+    n = eng.ctx.fresh('walk_len', INT)
+    st.assume(Ge(n, IntV(0)))
+    return [(VRecList(n, 'WalkEntry', eng.ctx.fresh_name('walk')), st)]
